@@ -83,12 +83,30 @@ fn with_script(base: &ConvCase, ends: Option<Vec<usize>>, pause_us: u64) -> Conv
 /// The same bytes in two segments with a pause of more than five seconds in between (pauses are
 /// part of "how the bytes were segmented"; nothing in the library may give up on a slow client
 /// in a way that changes the outcome).
-fn run_long_pause(ctx: &Ctx, env: &Env, prop: &str, cseed: u64, base_case: &ConvCase, base_canon: &[String], at: usize) {
+fn run_long_pause(ctx: &Ctx, env: &Env, prop: &str, cseed: u64, base_case: &ConvCase, base_canon: &[String], at: usize, paced_to: Option<usize>) {
     let rep = &ctx.rep;
     let mut c = with_script(base_case, None, 0);
     let half = base_case.script.iter().any(|s| matches!(s, Step::HalfClose));
     let n = c.wire.len();
-    let mut s = vec![Step::Send(0, at), Step::SleepUs(5_600_000), Step::Send(at, n)];
+    let mut s = match paced_to {
+        // one pause of 5.6 s
+        None => vec![Step::Send(0, at), Step::SleepUs(5_600_000), Step::Send(at, n)],
+        // the same total spread over eight pauses of 0.7 s: bytes [at, to) in eight slices
+        Some(to) => {
+            let mut v = vec![Step::Send(0, at)];
+            let mut pos = at;
+            for i in 1..=8usize {
+                let e = if i == 8 { to } else { at + (to - at) * i / 8 };
+                v.push(Step::SleepUs(700_000));
+                if e > pos {
+                    v.push(Step::Send(pos, e));
+                    pos = e;
+                }
+            }
+            v.push(Step::Send(to, n));
+            v
+        }
+    };
     if half {
         s.push(Step::HalfClose);
     }
@@ -100,13 +118,16 @@ fn run_long_pause(ctx: &Ctx, env: &Env, prop: &str, cseed: u64, base_case: &Conv
         return;
     }
     let cv = canon(&obs);
-    rep.inc("variant:two-segments-5.6s-apart");
+    rep.inc(if paced_to.is_some() { "variant:eight-pauses-of-0.7s" } else { "variant:two-segments-5.6s-apart" });
     rep.eval(Some(&format!("{}|{:x}|pause@{}", prop, cseed & 0xffff_ffff, at)));
     if cv != base_canon {
         let diff_at = cv.iter().zip(base_canon.iter()).position(|(a, b)| a != b).unwrap_or(cv.len().min(base_canon.len()));
         rep.violation(Violation {
             signature: format!("C13/{}/{}/differs-after-long-pause", prop, base_case.label),
-            what: format!("a pause of 5.6 s after byte {} of a {}-byte conversation changes the outcome (first difference in item #{})", at, n, diff_at),
+            what: match paced_to {
+                None => format!("a pause of 5.6 s after byte {} of a {}-byte conversation changes the outcome (first difference in item #{})", at, n, diff_at),
+                Some(to) => format!("eight pauses of 0.7 s while bytes {}..{} of a {}-byte conversation are delivered change the outcome (first difference in item #{})", at, to, n, diff_at),
+            },
             detail: J::obj()
                 .set("corpus_property", J::s(prop))
                 .set("conversation_seed", J::S(cseed.to_string()))
@@ -115,7 +136,10 @@ fn run_long_pause(ctx: &Ctx, env: &Env, prop: &str, cseed: u64, base_case: &Conv
                 .set("baseline", J::A(base_canon.iter().map(J::s).collect()))
                 .set("variant", J::A(cv.iter().map(J::s).collect())),
             case_seed: cseed,
-            mode: format!("{}:pause:{}", prop, at),
+            mode: match paced_to {
+                None => format!("{}:pause:{}", prop, at),
+                Some(to) => format!("{}:pause:{}-{}", prop, at, to),
+            },
         });
     }
 }
@@ -209,8 +233,11 @@ pub fn run(ctx: &Ctx) {
         let bc = canon(&bo);
         if let Some(rest) = mode.splitn(2, ':').nth(1).and_then(|r| r.strip_prefix("pause:")) {
             // "<prop>:pause:<byte>" (one run: each takes six seconds)
-            let at: usize = rest.parse().unwrap_or(1);
-            run_long_pause(ctx, &env, &prop, *cs, &base, &bc, at);
+            // or "<prop>:pause:<from>-<to>" for the eight-pauses variant
+            let mut it = rest.splitn(2, '-');
+            let at: usize = it.next().and_then(|x| x.parse().ok()).unwrap_or(1);
+            let to: Option<usize> = it.next().and_then(|x| x.parse().ok());
+            run_long_pause(ctx, &env, &prop, *cs, &base, &bc, at, to);
             return;
         }
         for _ in 0..(*repeat).max(1) {
@@ -259,9 +286,14 @@ pub fn run(ctx: &Ctx) {
             if let (Some(le), Some(he)) = (line_end, head_end) {
                 if he > le + 2 && he < n {
                     let at = rng.range(le + 1, he - 1);
-                    run_long_pause(ctx, &env, &prop, cseed, &base, &bc, at);
+                    run_long_pause(ctx, &env, &prop, cseed, &base, &bc, at, None);
                     long_pauses_done += 1;
                     ctx.rep.inc("long_pause_inside_header_block");
+                    if ctx.thorough {
+                        // the same block delivered slowly instead: no single pause is long
+                        run_long_pause(ctx, &env, &prop, cseed, &base, &bc, le, Some(he));
+                        long_pauses_done += 1;
+                    }
                 }
             }
         }
@@ -270,7 +302,7 @@ pub fn run(ctx: &Ctx) {
                 // the first one inside the first head (whatever the conversation, the server is
                 // then in the middle of reading a request), the others anywhere
                 let at = if vi == 0 { rng.range(1, (n - 1).min(40)) } else { rng.range(1, n - 1) };
-                run_long_pause(ctx, &env, &prop, cseed, &base, &bc, at);
+                run_long_pause(ctx, &env, &prop, cseed, &base, &bc, at, None);
                 long_pauses_done += 1;
             }
         }
